@@ -7,6 +7,7 @@ import Driver.EstimatorCmd
 import Driver.ParamCmd
 import Driver.EstimCmd
 import Driver.AsmCmd
+import Driver.HMeshCmd
 /- stbem-driver: one protocol line in, one canonical line out. -/
 open Driver
 
@@ -14,6 +15,7 @@ structure St where
   mesh : Option Stbem.Mesh.Mesh := none
   sl : SLState := {}
   qt : QtSt := {}
+  hmesh : Option Stbem.HalfEdge.HMesh := none
 
 def dispatch (st : St) (line : String) : St × String :=
   let args := (line.trimAscii.toString.splitOn " ").filter (· ≠ "")
@@ -28,6 +30,7 @@ def dispatch (st : St) (line : String) : St × String :=
   | "est" :: _ => (st, estimCmd args)
   | "asm" :: _ => (st, asmCmd args)
   | "mesh" :: _ => let r := meshCmd st.mesh args; ({ st with mesh := r.1 }, r.2)
+  | "hm" :: _ => let r := hmCmd st.hmesh args; ({ st with hmesh := r.1 }, r.2)
   | _ => (st, "bad-op")
 
 partial def loop (h : IO.FS.Stream) (out : IO.FS.Stream) (st : St) : IO Unit := do
